@@ -53,4 +53,53 @@ def zipLongest {α : Type} (ls : List (List α)) : List (List (Option α)) :=
   let n := ls.foldl (fun m l => max m l.length) 0
   (List.range n).map (fun j => ls.map (fun l => if j < l.length then l[j]? else l.getLast?))
 
+/-! ### the nested colour specification (`iter_color_spec_options`) -/
+
+/-- what the level column allows for the colour specification and its three nested groups -/
+structure CsLevel where
+  flag : Bool → Bool     -- custom_color_spec_flag
+  index : Nat → Bool     -- color_spec_index
+  prim : Level           -- custom_color_primaries_flag / color_primaries_index
+  mat : Level            -- custom_color_matrix_flag / color_matrix_index
+  tf : Level             -- custom_transfer_function_flag / transfer_function_index
+
+inductive CsOpt
+  | off                          -- {custom_color_spec_flag: False}
+  | preset (i : Nat)             -- {flag: True, index: i}, i ≠ 0
+  | custom (p m t : Opt)         -- {flag: True, index: 0, color_primaries: …, color_matrix: …, transfer_function: …}
+  deriving Repr, DecidableEq, Inhabited
+
+/-- preset 0 of the colour specifications: the starting point of a fully custom specification -/
+def preset0 (presets : List (Nat × List Int)) : List Int := ((presets.find? (·.1 == 0)).map (·.2)).getD []
+
+/-- `iter_color_spec_options`: `base`/`target` are (primaries, matrix, transfer function) -/
+def iterColorSpec (base target : List Int) (presets : List (Nat × List Int)) (L : CsLevel) : List CsOpt :=
+  (if base == target && L.flag false then [CsOpt.off] else []) ++
+  ((presets.filter (fun p => p.1 != 0 && p.2 == target && L.flag true && L.index p.1)).map (fun p => CsOpt.preset p.1)) ++
+  (if L.flag true && L.index 0 then
+     let b0 := preset0 presets
+     let rows := zipLongest [iterOptions [b0.getD 0 0] [target.getD 0 0] none L.prim,
+                             iterOptions [b0.getD 1 0] [target.getD 1 0] none L.mat,
+                             iterOptions [b0.getD 2 0] [target.getD 2 0] none L.tf]
+     -- `break` at the first row in which one of the three cannot be produced
+     (rows.takeWhile (fun r => r.all Option.isSome)).filterMap (fun r => match r with
+       | [some p, some m, some t] => some (CsOpt.custom p m t)
+       | _ => none)
+   else [])
+
+/-- the decoder's (primaries, matrix, transfer function) -/
+def decodeColorSpec (base : List Int) (presets : List (Nat × List Int)) : CsOpt → Option (List Int)
+  | .off => some base
+  | .preset i => (presets.find? (·.1 == i)).map (·.2)
+  | .custom p m t =>
+    let b0 := preset0 presets
+    match decode [b0.getD 0 0] none p, decode [b0.getD 1 0] none m, decode [b0.getD 2 0] none t with
+    | some [a], some [b], some [c] => some [a, b, c]
+    | _, _, _ => none
+
+def csLevelOk (L : CsLevel) : CsOpt → Bool
+  | .off => L.flag false
+  | .preset i => L.flag true && L.index i
+  | .custom p m t => L.flag true && L.index 0 && levelOk L.prim false p && levelOk L.mat false m && levelOk L.tf false t
+
 end VC2.Model.SeqHeader
